@@ -71,6 +71,9 @@ theorem ustr_body_length (s : Str) :
       4 + 2 * (Unicode.encUnits s).length := by
   simp only [List.length_append, Unicode.be32_length, Unicode.bytesOfUnits_length]
 
+theorem wUStr_eq (pad : Nat) (s : Str) : wUStr pad s = (ustrT pad s, (ustrT pad s).length) := by
+  simp only [wUStr, ustrT, wBytes_eq, wSeq_eq, wPad_eq]
+
 /-- a unicode string written with padding `pw`, read with the same padding: the value, cursor after the filler -/
 theorem readUStr_step {d : B} {p pad : Nat} {s : Str} {rest : B} (hf : UStrFits s) (hn : Unicode.NoPair s) (hp : pad ≠ 0)
     (h : At d p (ustrT pad s ++ rest)) :
